@@ -10,6 +10,7 @@ import (
 	"os"
 	"path/filepath"
 	"sort"
+	"strings"
 
 	"github.com/0xrawsec/sod"
 )
@@ -225,17 +226,38 @@ func runC11(k int, rng *Rng) CaseResult {
 	if cfg.Compress {
 		suffix += ".gz"
 	}
+	var removed []*Rec
 	for _, u := range take(nRm) {
-		os.Remove(filepath.Join(dir, u+suffix))
+		if rng.P(0.3) {
+			// the file is still there under a name that is not an object file's
+			os.Rename(filepath.Join(dir, u+suffix), filepath.Join(dir, u+".bak"))
+			faults = append(faults, "renamed-away:"+w.name(u))
+		} else {
+			os.Remove(filepath.Join(dir, u+suffix))
+			faults = append(faults, "rmfile:"+w.name(u))
+		}
+		removed = append(removed, objs[u])
 		delete(files, u)
 		delete(objs, u)
-		faults = append(faults, "rmfile:"+w.name(u))
+	}
+	// entries that are not object files of the collection: they change nothing
+	if shape >= 6 && rng.P(0.4) {
+		os.WriteFile(filepath.Join(dir, w.absentUUID()+".txt"), []byte("{}"), 0o600)
+		os.Mkdir(filepath.Join(dir, strings.ToLower(w.absentUUID())+suffix), 0o700)
+		faults = append(faults, "not-object-files")
 	}
 	for i := 0; i < nAdd; i++ {
 		x := cfg.applyTransforms(genRec(rng, 1000+i, RecOpts{ValidOnly: true, Simple: true}))
 		// keep unique fields free of conflicts: Repair indexes files as they are
 		x.K, x.KS, x.U8, x.I64, x.F64, x.X = 100+i, fmt.Sprintf("added%d", i), uint8(200+i), int64(7000+i), float64(7000+i), 7000+i
 		x.T = x.T.AddDate(0, 0, 100+i)
+		if i < len(removed) && removed[i] != nil && rng.P(0.5) {
+			// the file of a removed object under another identifier: its unique values are free
+			// as far as the files are concerned
+			r := removed[i]
+			x.K, x.KS, x.U8, x.I64, x.F64, x.X, x.T = r.K, r.KS, r.U8, r.I64, r.F64, r.X, r.T
+			faults = append(faults, "addfile-takes-removed-values")
+		}
 		x = cfg.applyTransforms(x)
 		u := w.absentUUID()
 		x.Initialize(u)
